@@ -6,6 +6,8 @@ props = json.load(open(os.path.join(ROOT, "props.json")))
 import glob
 for _f in sorted(glob.glob(os.path.join(ROOT, "c[0-9][0-9]*", "prop.json"))):
     props.update(json.load(open(_f)))
+ready = set(open(os.path.join(ROOT, "READY")).read().split())
+props = {k: v for k, v in props.items() if k in ready}
 allp = [json.loads(l) for l in open(os.path.join(ROOT, "properties.jsonl"))]
 checks = []
 na = []
